@@ -136,8 +136,26 @@ func gen(r *rand.Rand, id int) Case {
 	fps := []uint64{0, 1, 7, 7, 42, 1 << 63}
 	var all []Ent
 	fp0 := r.Intn(3)
+	// the theorems hold for EVERY row stream: in half of the cases the series come in an arbitrary order of
+	// fingerprints (fingerprint 0 after another series, a fingerprint that comes back as a later run)
+	anyOrder := r.Intn(2) == 0
+	if anyOrder {
+		nser = 1 + r.Intn(4)
+	}
+	seen := map[uint64]bool{}
+	var prev uint64
 	for s := 0; s < nser; s++ {
 		fp := fps[(fp0+s)%len(fps)]
+		if anyOrder {
+			fp = fps[r.Intn(len(fps))]
+		}
+		if s > 0 && fp == 0 && prev != 0 {
+			c.Class = append(c.Class, "fp0-not-first")
+		}
+		if s > 0 && fp != prev && seen[fp] {
+			c.Class = append(c.Class, "fp-recurs")
+		}
+		seen[fp], prev = true, fp
 		unit := d
 		if st > d {
 			unit = st
